@@ -88,7 +88,7 @@ def classify_crash(rc, err, out):
     m = re.search(r"SCHED-VERDICT (\S+) (.*)", out)
     if m:
         v = m.group(1)
-        if v in ("DEADLOCK", "STEP-BUDGET"):
+        if v in ("DEADLOCK", "STEP-BUDGET", "HANG"):
             return (v, v.lower(), m.group(2)[:600])
         return ("SCHED", v, m.group(2)[:600])
     m = re.search(r"ThreadSanitizer: (SEGV|DEADLYSIGNAL)", err)
@@ -140,7 +140,11 @@ def run_chunk(cfg, prop, tier, seed, a, b, tmp, want_samples):
         if want_samples and cur == a:
             cmd += ["--samples", "3"]
         with open(errf, "w") as ef:
-            p = subprocess.run(cmd, stdout=subprocess.PIPE, stderr=ef, text=True, env=ENV, errors="replace")
+            try:
+                p = subprocess.run(cmd, stdout=subprocess.PIPE, stderr=ef, text=True, env=ENV, errors="replace", timeout=3600)
+            except subprocess.TimeoutExpired:
+                log("INFRA-ERROR engine process did not finish within the wall-clock backstop (chunk %s)" % tag)
+                os._exit(2)
         done = False
         last = cur - 1
         for line in p.stdout.splitlines():
@@ -173,8 +177,11 @@ def replay_once(variant, plan_text, tmp, tag):
     pf = os.path.join(tmp, "replay.%s.plan" % tag)
     with open(pf, "w") as f:
         f.write(plan_text)
-    p = subprocess.run([sim_bin(variant), "replay", pf], stdout=subprocess.PIPE, stderr=subprocess.PIPE,
-                       text=True, env=ENV, errors="replace")
+    try:
+        p = subprocess.run([sim_bin(variant), "replay", pf], stdout=subprocess.PIPE, stderr=subprocess.PIPE,
+                           text=True, env=ENV, errors="replace", timeout=1800)
+    except subprocess.TimeoutExpired:
+        return dict(viol=False, fp="", infra=True, detail="replay did not finish within the wall-clock backstop")
     for line in p.stdout.splitlines():
         if line.startswith("RUN "):
             r = parse_run(line)
